@@ -1,3 +1,5 @@
+import FM.Generated.Patterns
+import FM.Model.PatternBaseline
 import FM.Lemmas.Render
 import FM.Lemmas.RenderPD
 import FM.Lemmas.BlockStart
@@ -144,5 +146,10 @@ theorem NH_sentence_false :
 /-- non-vacuity of NH_handled: a covered word. -/
 example : (isSpecialWord "12)".toList || isNumeralWord "12)".toList) = true ∧
     interruptsPara (escapeWord "1.".toList :: ["x".toList]) = false := by decide
+
+
+/-- PATTERNS_AS_MODELLED: the regular expressions of the source files this property's models were written against
+(regenerated from /repo's working tree on every run by harness/translate_patterns.py) are the recorded ones. -/
+theorem PATTERNS_AS_MODELLED : FM.Gen.patterns_C01 = FM.Baseline.patterns_C01 := by decide
 
 end FM.C01
